@@ -439,6 +439,16 @@ func highClock(res *core.Result, r *core.RNG) (*srv.World, error) {
 			deliver(res, w, a.report(w, d0, ts, p, d0.K), "opposite-ends", false)
 		}
 	}
+	// the rotation thread wakes while the clock is BEHIND the window start (clock stepped back, or a window
+	// placed ahead): the distance is negative, not a huge unsigned number -- no rotation
+	w.SetNow(100)
+	offBefore := w.S.VerifSnapshot().Offset
+	if w.RotateTick("clock-behind-window") {
+		res.Count("rotate.clock-behind-window")
+		if got := w.S.VerifSnapshot().Offset; got != offBefore {
+			res.Fail(fmt.Sprintf("the rotation check rotated the window (offset %d -> %d) although the clock (%d) is behind the window start: the age was computed with wrap-around", offBefore, got, w.Now), "c20-rotation-wraps", map[string]interface{}{"history": w.Desc})
+		}
+	}
 	// (b) window at the bottom, clock at the top
 	w.SetOffset(0)
 	for _, now := range []uint32{1<<32 - 100, 1<<32 - 1, 1<<32 - 432} {
@@ -664,7 +674,7 @@ func reportsWorker(res *core.Result, r *core.RNG, tier, out string) error {
 		}
 		finishWorld(res, w, &items)
 	}
-	res.Required = []string{"dgram.opposite-ends", "dgram.udp-short79-zero-tail", "dgram.udp-short79", "dgram.udp-long-valid-prefix", "dgram.now+432", "dgram.now+433", "dgram.now-432", "dgram.now-433", "dgram.power0", "dgram.power1", "dgram.power2",
+	res.Required = []string{"rotate.clock-behind-window", "dgram.opposite-ends", "dgram.udp-short79-zero-tail", "dgram.udp-short79", "dgram.udp-long-valid-prefix", "dgram.now+432", "dgram.now+433", "dgram.now-432", "dgram.now-433", "dgram.power0", "dgram.power1", "dgram.power2",
 		"dgram.short79", "dgram.long-valid-prefix", "dgram.signed-by-other-device", "dgram.signed-by-gca", "dgram.signed-by-server", "dgram.unknown-id",
 		"dgram.banned-device", "dgram.bitflip", "dgram.field-swap", "dgram.window-start-1", "dgram.window-start", "dgram.window-end-1", "dgram.window-end",
 		"dgram.lowclock-ts0", "dgram.highclock", "dgram.malleated-twin", "outcome.changed"}
